@@ -791,4 +791,11 @@ theorem validUTF8_bytes (b : ByteArray) (h : b.IsValidUTF8) : ∃ cs, b.data = s
 theorem hasBS_iff (cs : List Char) : hasBS cs = true ↔ '\\' ∈ cs := by
   simp [hasBS]
 
+/-- UTF-8 bytes of a character list (through Lean's `String`) -/
+def utf8 (cs : List Char) : Bytes := (String.ofList cs).toUTF8.data.toList
+
+theorem utf8_eq_enc (cs : List Char) : utf8 cs = enc cs := by
+  unfold utf8
+  rw [string_bytes, String.toList_ofList]; simp [src]
+
 end FluentProofs.Unescape
